@@ -52,6 +52,7 @@ type Engine struct {
 	srcFiles  map[string][]byte
 	SpecErrors []string
 	funcsByKey map[string]*ssa.Function
+	sentinels  map[*ssa.Global]bool
 }
 
 // Load loads the packages (patterns relative to repoDir) with the verif tag and builds SSA.
